@@ -16,16 +16,82 @@ open Arrow
 
 variable {α : Type}
 
+/-! ## Expression facts
+
+One small theorem per expression lifted from the source (`Gen.ArrowExpr`, regenerated on every
+run).  Everything below is proved from these facts and the hand-written skeleton, so a changed
+operator in the source breaks exactly the fact that names it. -/
+
+/-- `__next__`'s stop test (`self.rows_processed >= self.max_size`) holds exactly when the limit
+has been reached. -/
+theorem next_guard_spec (p m : Nat) : Gen.ArrowExpr.nextStopTest (p : Int) (m : Int) ↔ m ≤ p := by
+  unfold Gen.ArrowExpr.nextStopTest; first | omega | trivial
+
+/-- `__next__`'s bookkeeping (`self.rows_processed += 1`) counts one per returned row. -/
+theorem next_bookkeeping_spec (p : Nat) : bump p = p + 1 := by
+  unfold bump Gen.ArrowExpr.nextBump; omega
+
+/-- `from_arrow`: for a positive size the limit is in force (`if size:`) and the batch size computed
+in that branch (`min(size, BATCH_SIZE)`) is positive; the other branch makes the limit infinite.
+(What a size of 0 means is outside the property and deliberately not fixed here.) -/
+theorem from_arrow_size_spec (k : Nat) (hk : 0 < k) :
+    Gen.ArrowExpr.sizeTest (k : Int) ∧
+    0 < (Gen.ArrowExpr.limitedBatch (k : Int) (Gen.Arrow.batchSize : Int)).toNat ∧
+    Gen.ArrowExpr.unlimitedIsInf = true := by
+  have hb : 0 < Gen.Arrow.batchSize := by decide
+  refine ⟨?_, ?_, by decide⟩
+  · unfold Gen.ArrowExpr.sizeTest; first | trivial | omega
+  · unfold Gen.ArrowExpr.limitedBatch; omega
+
+/-- `to_arrow`: the frame is cut exactly for a size `≥ 0` (`size is not None and size >= 0`), and it
+is cut to that size (`dataset.head(size)`). -/
+theorem to_arrow_guard_spec (k : Int) :
+    (Gen.ArrowExpr.toArrowLimitTest k ↔ 0 ≤ k) ∧ Gen.ArrowExpr.toArrowHeadArg k = k := by
+  refine ⟨?_, ?_⟩
+  · unfold Gen.ArrowExpr.toArrowLimitTest; first | omega | trivial
+  · unfold Gen.ArrowExpr.toArrowHeadArg; rfl
+
+/-- `arrow_field`: the arguments handed to `pyarrow.decimal128` are the column's own precision
+(when it is at least 1) and the column's own scale — **including scale 0** (the repaired defect:
+`self.scale or 10` does not satisfy this). -/
+theorem decimal_defaulting_spec :
+    (∀ p : Nat, 1 ≤ p → Gen.ArrowExpr.decimalPrecisionArg (some (p : Int)) = some (p : Int)) ∧
+    (∀ s : Nat, Gen.ArrowExpr.decimalScaleArg (some (s : Int)) = some (s : Int)) := by
+  refine ⟨?_, ?_⟩
+  · intro p hp
+    unfold Gen.ArrowExpr.decimalPrecisionArg
+    first | rfl | (simp only []; split <;> first | rfl | omega) | (simp; omega)
+  · intro s
+    unfold Gen.ArrowExpr.decimalScaleArg
+    first | rfl | (simp only []; split <;> first | rfl | omega) | (simp; omega)
+
+/-- The facts in the form the skeleton lemmas take them. -/
+theorem next_facts : NextFacts := ⟨next_guard_spec, next_bookkeeping_spec⟩
+
 /-! ## Rows -/
 
-/-- `BATCH_SIZE` and `min(size, BATCH_SIZE)` are positive for every size, so
-`table.to_batches` is never asked for empty batches.  Mentions the extracted `BATCH_SIZE`. -/
-theorem batch_positive (size : Option Nat) : 0 < batchOf size := by
+/-- The size limit `from_arrow` enforces: none for `None`, the size for a positive size. -/
+theorem limit_of_spec : limitOf none = none ∧ ∀ k, 0 < k → limitOf (some k) = some k := by
+  refine ⟨rfl, ?_⟩
+  intro k hk
+  simp only [limitOf]
+  rw [if_pos (from_arrow_size_spec k hk).1]
+
+/-- `BATCH_SIZE` and `min(size, BATCH_SIZE)` are positive for every size of the property's range
+(none, or positive), so `table.to_batches` is never asked for empty batches.  Mentions the extracted
+`BATCH_SIZE`. -/
+theorem batch_positive (size : Option Nat) (hs : size ≠ some 0) : 0 < batchOf size := by
   have hb : 0 < Gen.Arrow.batchSize := by decide
   unfold batchOf
-  split
-  · exact Nat.lt_min.mpr ⟨Nat.succ_pos _, hb⟩
-  · exact hb
+  cases size with
+  | none => simp only [limitOf]; exact hb
+  | some j =>
+    have hj : 0 < j := by
+      rcases Nat.eq_zero_or_pos j with h0 | h0
+      · exact absurd (by rw [h0]) hs
+      · exact h0
+    rw [limit_of_spec.2 j hj]
+    exact (from_arrow_size_spec j hj).2.1
 
 /-- **Batching is invisible.**  Whatever the chunk layout of a table and whatever the (positive)
 batch size, `process_table` returns the table's rows, in order, once each. -/
@@ -34,37 +100,37 @@ theorem process_table_rows (n : Nat) (hn : 0 < n) (t : Table α) : processTable 
 
 /-- **One row per Arrow row, in order, across any number of tables and any chunking (empty tables
 and chunks anywhere), cut to the requested size.**  `drain` is `list(iterator)`; the iterator is
-`_RowsIterator` as repaired.  A size of `0`/`None` means no limit (`if size:`). -/
+`_RowsIterator` as repaired, assembled from the generated guard and bookkeeping expressions.  -/
 theorem iterator_spec (tables : List (Table α)) :
     drain (init tables none) = (tables.map Table.rows).flatten ∧
-    drain (init tables (some 0)) = (tables.map Table.rows).flatten ∧
     ∀ k, 0 < k → drain (init tables (some k)) = ((tables.map Table.rows).flatten).take k := by
-  have key : ∀ size, (init tables size).remaining = (tables.map Table.rows).flatten := by
-    intro size
+  have key : ∀ size, size ≠ some 0 → (init tables size).remaining = (tables.map Table.rows).flatten := by
+    intro size hs
     simp only [It.remaining, init, List.nil_append]
     congr 1
     apply List.map_congr_left
     intro t _
-    exact processTable_eq_rows _ (batch_positive size) t
-  refine ⟨?_, ?_, ?_⟩
-  · have hroom : (init tables none).room = (init tables none).remaining.length := rfl
-    rw [drain_eq, hroom, List.take_length]; exact key none
-  · have hroom : (init tables (some 0)).room = (init tables (some 0)).remaining.length := rfl
-    rw [drain_eq, hroom, List.take_length]; exact key (some 0)
+    exact processTable_eq_rows _ (batch_positive size hs) t
+  obtain ⟨hl0, hl2⟩ := limit_of_spec
+  refine ⟨?_, ?_⟩
+  · have hroom : (init tables none).room = (init tables none).remaining.length := by
+      simp only [It.room, init, hl0]
+    rw [drain_eq next_facts, hroom, List.take_length]; exact key none (by simp)
   · intro k hk
-    obtain ⟨j, rfl⟩ : ∃ j, k = j + 1 := ⟨k - 1, by omega⟩
-    have hroom : (init tables (some (j + 1))).room = j + 1 := rfl
-    rw [drain_eq, key, hroom]
+    have hroom : (init tables (some k)).room = k := by
+      simp only [It.room, init, hl2 k hk]; omega
+    rw [drain_eq next_facts, key (some k) (by simp; omega), hroom]
 
-/-- The same, against the specification function the driver and the harness use. -/
-theorem from_arrow_rows_spec (tables : List (Table α)) (size : Option Nat) :
+/-- The same, against the specification function the driver and the harness use (sizes of the
+property's range: none, or positive). -/
+theorem from_arrow_rows_spec (tables : List (Table α)) (size : Option Nat) (hs : size ≠ some 0) :
     fromArrowRows tables size = expectedRows tables size := by
-  obtain ⟨h1, h2, h3⟩ := iterator_spec tables
+  obtain ⟨h1, h3⟩ := iterator_spec tables
   unfold fromArrowRows expectedRows
-  match size with
-  | none => simpa [limitOf] using h1
-  | some 0 => simpa [limitOf] using h2
-  | some (k + 1) => simpa [limitOf] using h3 (k + 1) (Nat.succ_pos k)
+  match size, hs with
+  | none, _ => simpa using h1
+  | some 0, hs => exact absurd rfl hs
+  | some (k + 1), _ => simpa using h3 (k + 1) (Nat.succ_pos k)
 
 /-- **Regression lemma for the pinned tree** (before `fix: Arrow row iterator skips empty
 tables …`): the old `__next__` loses the rows after an empty table, and everything after an
@@ -78,30 +144,61 @@ theorem pinned_iterator_loses_rows :
 /-- **The repair is conservative.**  On every stream in which no table is empty the pinned
 iterator and the repaired one deliver the same rows, for every size: the repair changes the
 outcome only on the inputs on which the old code lost rows. -/
-theorem repair_conservative (tables : List (Table α)) (size : Option Nat)
+theorem repair_conservative (tables : List (Table α)) (size : Option Nat) (hs : size ≠ some 0)
     (h : ∀ t ∈ tables, t.rows ≠ []) : drainPinned (init tables size) = drain (init tables size) := by
   unfold drainPinned drain
   apply drainWith_pinned_eq
   intro t ht
-  have : processTable (batchOf size) t = t.rows := processTable_eq_rows _ (batch_positive size) t
+  have : processTable (batchOf size) t = t.rows := processTable_eq_rows _ (batch_positive size hs) t
   simp only [init] at ht ⊢
   rw [this]
   exact h t ht
 
+/-- How `arrow(size)` is meant to limit a frame (written out, independent of the generated
+expressions): the first `k` rows for a size `k ≥ 0`, everything for `None` or a negative size. -/
+def specLimited (rows : List (List α)) : Option Int → List (List α)
+  | some (.ofNat k) => rows.take k
+  | _ => rows
+
+/-- `to_arrow`'s generated guard and `head` argument limit the frame exactly that way. -/
+theorem limited_spec (rows : List (List α)) (size : Option Int) : limited rows size = specLimited rows size := by
+  unfold limited limitArg specLimited head
+  cases size with
+  | none => rfl
+  | some k =>
+    obtain ⟨h1, h2⟩ := to_arrow_guard_spec k
+    cases k with
+    | ofNat n =>
+      simp only [h1, h2]
+      have h0 : (0 : Int) ≤ Int.ofNat n := Int.natCast_nonneg n
+      rw [if_pos h0]
+      rfl
+    | negSucc n =>
+      simp only [h1]
+      rw [if_neg (by have := Int.negSucc_lt_zero n; omega)]
+
 /-- **DataFrame → Arrow (optionally limited) → DataFrame returns the same rows and column
 names.**  For every rectangular frame with at least one column: the Arrow table built by
 `to_arrow` has the frame's column names and `min(size, n)` rows, and iterating it back gives the
-frame's rows limited the way `arrow(size)` limits them (a negative size is ignored).  -/
+frame's rows limited as `specLimited` says (a negative size is ignored).  -/
 theorem to_from_roundtrip (names : List String) (rows : List (List α)) (size : Option Int)
     (hw : 0 < names.length) (hrect : ∀ r ∈ rows, r.length = names.length) :
-    roundtripRows names rows size = limited rows size ∧
+    roundtripRows names rows size = specLimited rows size ∧
     (toArrow names rows size).names = names ∧
-    (toArrow names rows size).numRows = (limited rows size).length := by
+    (toArrow names rows size).numRows = (specLimited rows size).length := by
   have hrows := toArrow_rows names rows size hw hrect
+  rw [← limited_spec]
   refine ⟨?_, toArrow_names names rows size, toArrow_numRows names rows size hw hrect⟩
   unfold roundtripRows fromArrowRows
   rw [(iterator_spec _).1, hrows]
   simp [Table.rows]
+
+/-- Non-vacuity (rows): a stream with empty tables and chunks everywhere, limited inside the last
+table; a frame going to Arrow and back. -/
+example :
+    drain (init [[[]], [[1, 2], [], [3]], [], [[]], [[4, 5]]] (some 4)) = [1, 2, 3, 4] ∧
+    roundtripRows ["a", "b"] [[1, 2], [3, 4], [5, 6]] (some 2) = [[1, 2], [3, 4]] := by
+  decide +kernel
 
 /-- A frame without columns does **not** survive: Arrow cannot carry rows without columns
 (`Table.from_arrays([], [])` has no rows).  This is why `to_from_roundtrip` asks for a column. -/
@@ -203,6 +300,17 @@ theorem typemap_roundtrip_partial (c : Col) (h : InScope c) (hopen : ¬ OpenFind
       exact ⟨c', h0, h1, by simpa [normalise, htd] using h3, by simpa [normalise, htd] using h4,
         fun h => absurd h hta, h5⟩
 
+/-- Non-vacuity (types): in-scope columns of each shape that round-trip. -/
+example :
+    roundtripCol ⟨"d", .DECIMAL, none, some 38, some 0, false⟩ = some ⟨"d", .DECIMAL, none, some 38, some 0, true⟩ ∧
+    roundtripCol ⟨"a", .ARRAY, some .INTEGER, none, none, true⟩ = some ⟨"a", .ARRAY, some .INTEGER, none, none, true⟩ ∧
+    roundtripCol ⟨"t", .TIMESTAMP, none, none, none, true⟩ = some ⟨"t", .TIMESTAMP, none, none, none, true⟩ := by
+  decide +kernel
+
+example : InScope ⟨"d", .DECIMAL, none, some 38, some 0, false⟩ ∧ ¬ OpenFinding ⟨"d", .DECIMAL, none, some 38, some 0, false⟩ := by
+  refine ⟨⟨by decide, fun _ => ⟨38, 0, rfl, rfl, by omega, by omega⟩, fun h => absurd rfl h, fun h => by cases h⟩, ?_⟩
+  rintro (h | ⟨h, _⟩ | ⟨_, h⟩) <;> cases h
+
 /-- Open finding: DATE ↦ `date64` ↦ `datetime` ↦ TIMESTAMP. -/
 theorem date_counterexample :
     forthTy .DATE none none none = .prim "DATE64" ∧
@@ -218,17 +326,17 @@ theorem array_decimal_counterexample :
     backTy false (forthTy .ARRAY (some .DECIMAL) none none) = some (.ARRAY, none, none, none) := by
   decide +kernel
 
-/-- Open finding: DECIMAL(0, 0) has no Arrow counterpart; `self.precision or DECIMAL_PRECISION`
-substitutes the interpreter's decimal precision and the column comes back with it. -/
+/-- Open finding: DECIMAL(0, 0) has no Arrow counterpart (`pyarrow.decimal128` starts at precision
+1): whatever `arrow_field` does with it (today `self.precision or DECIMAL_PRECISION` substitutes the
+interpreter's decimal precision), the column does not come back as DECIMAL(0, 0). -/
 theorem decimal_precision_zero_counterexample :
-    backTy false (forthTy .DECIMAL none (some 0) (some 0)) =
-      some (.DECIMAL, none, some Gen.Arrow.decimalPrecision, some 0) := by decide +kernel
+    backTy false (forthTy .DECIMAL none (some 0) (some 0)) ≠ some (.DECIMAL, none, some 0, some 0) := by
+  decide +kernel
 
-/-- Regression lemma for the second repaired defect: Python's `self.scale or 10` turns a scale of
-0 into 10, `10 if self.scale is None else self.scale` does not — and the source now uses the
-latter (the generated table says how the scale argument is defaulted). -/
+/-- Regression lemma for the second repaired defect: the generated scale argument keeps a scale of
+0 (with Python's `self.scale or 10` it would be 10), and DECIMAL(10, 0) survives the round trip. -/
 theorem scale_zero_kept :
-    applyDefault (.orElse 10) (some 0) = some 10 ∧ applyDefault (.ifNone 10) (some 0) = some 0 ∧
+    Gen.ArrowExpr.decimalScaleArg (some 0) = some 0 ∧
     backTy false (forthTy .DECIMAL none (some 10) (some 0)) = some (.DECIMAL, none, some 10, some 0) := by
   decide +kernel
 
@@ -253,19 +361,5 @@ theorem field_name_nullable_carried (m : Bool) (f : ArrowField) (c : Col)
   · simp only [Option.some.injEq] at h
     subst h
     exact ⟨by simp [Gen.Arrow.carriesName], by simp [Gen.Arrow.carriesNullable]⟩
-
-/-- Non-vacuity: a stream with empty tables and chunks everywhere, limited inside the last table;
-a frame going to Arrow and back; in-scope columns of each shape that round-trip. -/
-example :
-    drain (init [[[]], [[1, 2], [], [3]], [], [[]], [[4, 5]]] (some 4)) = [1, 2, 3, 4] ∧
-    roundtripRows ["a", "b"] [[1, 2], [3, 4], [5, 6]] (some 2) = [[1, 2], [3, 4]] ∧
-    roundtripCol ⟨"d", .DECIMAL, none, some 38, some 0, false⟩ = some ⟨"d", .DECIMAL, none, some 38, some 0, true⟩ ∧
-    roundtripCol ⟨"a", .ARRAY, some .INTEGER, none, none, true⟩ = some ⟨"a", .ARRAY, some .INTEGER, none, none, true⟩ ∧
-    roundtripCol ⟨"t", .TIMESTAMP, none, none, none, true⟩ = some ⟨"t", .TIMESTAMP, none, none, none, true⟩ := by
-  decide +kernel
-
-example : InScope ⟨"d", .DECIMAL, none, some 38, some 0, false⟩ ∧ ¬ OpenFinding ⟨"d", .DECIMAL, none, some 38, some 0, false⟩ := by
-  refine ⟨⟨by decide, fun _ => ⟨38, 0, rfl, rfl, by omega, by omega⟩, fun h => absurd rfl h, fun h => by cases h⟩, ?_⟩
-  rintro (h | ⟨h, _⟩ | ⟨_, h⟩) <;> cases h
 
 end C11
